@@ -35,6 +35,7 @@ type Op struct {
 }
 type Case struct {
 	Ops []Op `json:"ops"`
+	E2E bool `json:"e2e,omitempty"` // end-to-end schedule (ops: put del disc reconnect), real standbyLoop
 }
 
 const nIDs = 4
@@ -513,6 +514,229 @@ func genRandom(r *vh.Rng, maxLen int, guarded bool) Case {
 	return Case{Ops: ops}
 }
 
+// ---------------------------------------------------------------- end-to-end stream
+// Real standbyLoop (Start() on the standby), real connectToStream, real broadcastLoop, real HTTP
+// over loopback. The driver only (a) plays the session manager, (b) cuts the link (503 gate +
+// CloseClientConnections) and restores it, (c) waits with a bound for the pair to go quiet and
+// then reads both stores. FullSyncInterval stays at its default: a reconnect must full-sync
+// however recently the last one ran.
+
+type e2eWorld struct {
+	aStore, sStore *ha.InMemorySessionStore
+	active, stand  *ha.HASyncer
+	srv            *httptest.Server
+	gateMu         sync.Mutex
+	down           bool
+	link           string
+}
+
+func newE2E() *e2eWorld {
+	lg := zap.NewNop()
+	w := &e2eWorld{aStore: ha.NewInMemorySessionStore(), sStore: ha.NewInMemorySessionStore(), link: "down", down: true}
+	ac := ha.DefaultSyncConfig()
+	ac.NodeID, ac.Role = "node-a", ha.RoleActive
+	w.active = ha.NewHASyncer(ac, w.aStore, lg)
+	gate := func(h http.HandlerFunc) http.HandlerFunc {
+		return func(rw http.ResponseWriter, r *http.Request) {
+			w.gateMu.Lock()
+			d := w.down
+			w.gateMu.Unlock()
+			if d {
+				http.Error(rw, "link down", http.StatusServiceUnavailable)
+				return
+			}
+			h(rw, r)
+		}
+	}
+	mux := http.NewServeMux()
+	mux.HandleFunc("/ha/sessions", gate(w.active.VerifHandleGetSessions))
+	mux.HandleFunc("/ha/sessions/stream", gate(w.active.VerifHandleSessionStream))
+	w.srv = httptest.NewServer(mux)
+	w.active.VerifStartBroadcastLoop()
+	sc := ha.DefaultSyncConfig() // FullSyncInterval = 5 min (default), not shortened
+	sc.NodeID, sc.Role = "node-b", ha.RoleStandby
+	sc.Partner = &ha.PartnerInfo{NodeID: "node-a", Endpoint: strings.TrimPrefix(w.srv.URL, "http://")}
+	w.stand = ha.NewHASyncer(sc, w.sStore, lg)
+	w.stand.VerifSetBackoff(5*time.Millisecond, 20*time.Millisecond)
+	if err := w.stand.Start(); err != nil { // the real standbyLoop; the link is still down
+		panic(err)
+	}
+	return w
+}
+
+func (w *e2eWorld) close() {
+	w.gateMu.Lock()
+	w.down = true
+	w.gateMu.Unlock()
+	done := make(chan struct{})
+	go func() { w.stand.Stop(); close(done) }()
+	w.srv.CloseClientConnections()
+	select {
+	case <-done:
+	case <-time.After(5 * time.Second):
+	}
+	w.active.Stop()
+	w.srv.Close()
+}
+
+func poll(bound time.Duration, f func() bool) bool {
+	dl := time.Now().Add(bound)
+	for {
+		if f() {
+			return true
+		}
+		if time.Now().After(dl) {
+			return false
+		}
+		time.Sleep(300 * time.Microsecond)
+	}
+}
+
+func (w *e2eWorld) quiet() {
+	if w.link == "streaming" {
+		poll(1500*time.Millisecond, func() bool {
+			pl, _, _, cl, _ := w.active.VerifQueues()
+			return pl == 0 && cl == 0 && table(w.aStore) == table(w.sStore)
+		})
+	} else {
+		poll(1500*time.Millisecond, func() bool { pl, _, _, _, _ := w.active.VerifQueues(); return pl == 0 })
+	}
+}
+
+// apply runs one end-to-end action; returns the Model operations it stands for
+func (w *e2eWorld) apply(o Op) []string {
+	switch o.K {
+	case "put", "del":
+		var m string
+		if o.K == "put" {
+			s := session(o.ID, o.V)
+			typ := ha.SyncTypeAdd
+			if _, ok := w.aStore.GetSession(s.SessionID); ok {
+				typ = ha.SyncTypeUpdate
+			}
+			w.aStore.PutSession(s)
+			w.active.PushChange(typ, s)
+			m = fmt.Sprintf("Put %d %d", o.ID, o.V)
+		} else {
+			w.aStore.DeleteSession(sid(o.ID))
+			w.active.PushChange(ha.SyncTypeDelete, &ha.SessionState{SessionID: sid(o.ID)})
+			m = fmt.Sprintf("Del %d", o.ID)
+		}
+		if w.link == "streaming" {
+			return []string{m, "Broadcast", "Deliver"}
+		}
+		return []string{m, "Broadcast"}
+	case "disc":
+		if w.link == "down" {
+			return nil
+		}
+		w.gateMu.Lock()
+		w.down = true
+		w.gateMu.Unlock()
+		w.srv.CloseClientConnections()
+		poll(3*time.Second, func() bool {
+			_, _, n, _, _ := w.active.VerifQueues()
+			return !w.stand.IsConnected() && n == 0
+		})
+		w.link = "down"
+		return []string{"Disconnect"}
+	case "reconnect":
+		if w.link != "down" {
+			return nil
+		}
+		poll(1500*time.Millisecond, func() bool { pl, _, _, _, _ := w.active.VerifQueues(); return pl == 0 })
+		w.gateMu.Lock()
+		w.down = false
+		w.gateMu.Unlock()
+		// the standby's own loop notices: what it does on (re)connect is the code under test
+		if poll(5*time.Second, func() bool {
+			_, _, n, _, _ := w.active.VerifQueues()
+			return w.stand.IsConnected() && n == 1
+		}) {
+			w.link = "streaming"
+		}
+		return []string{"FullSync", "Attach"} // as standbyLoop does
+	}
+	panic("bad e2e op " + o.K)
+}
+
+func runE2E(c Case, extraTags ...string) vh.Case {
+	w := newE2E()
+	var gs []string
+	tags := map[string]bool{}
+	outageChange := false
+	for _, o := range c.Ops {
+		ops := w.apply(o)
+		w.quiet()
+		pl, _, _, cl, _ := w.active.VerifQueues()
+		lk := "LDown"
+		if w.stand.IsConnected() {
+			lk = "LStreaming"
+		}
+		gs = append(gs, fmt.Sprintf("(%s, (%s, %s, %d, %d, %s))", vh.List(ops), table(w.aStore), table(w.sStore), pl, cl, lk))
+		tags["e2e:"+o.K] = true
+		if (o.K == "put" || o.K == "del") && w.link == "down" {
+			outageChange = true
+		}
+		if o.K == "reconnect" && outageChange {
+			tags["reconnect-after-changes-during-outage"] = true
+		}
+	}
+	w.close()
+	var tl []string
+	for t := range tags {
+		tl = append(tl, t)
+	}
+	tl = append(tl, extraTags...)
+	sort.Strings(tl)
+	return vh.Case{Coq: fmt.Sprintf("(Build_config %d %d,\n  %s)", pcap, ccap, vh.List(gs)), Desc: c, Tags: tl}
+}
+
+func genE2E(r *vh.Rng) Case {
+	c := Case{E2E: true}
+	link := "down"
+	chg := func() {
+		if r.Chance(1, 3) {
+			c.Ops = append(c.Ops, Op{K: "del", ID: r.Intn(nIDs)})
+		} else {
+			c.Ops = append(c.Ops, Op{K: "put", ID: r.Intn(nIDs), V: 1 + r.Intn(5)})
+		}
+	}
+	for k := r.Intn(3); k > 0; k-- {
+		chg()
+	}
+	c.Ops = append(c.Ops, Op{K: "reconnect"})
+	link = "streaming"
+	for round := 1 + r.Intn(3); round > 0; round-- {
+		for k := r.Intn(4); k > 0; k-- {
+			chg()
+		}
+		c.Ops = append(c.Ops, Op{K: "disc"})
+		link = "down"
+		for k := 1 + r.Intn(3); k > 0; k-- { // changes during the outage (deletes matter most)
+			chg()
+		}
+		c.Ops = append(c.Ops, Op{K: "reconnect"})
+		link = "streaming"
+		for k := r.Intn(3); k > 0; k-- {
+			chg()
+		}
+	}
+	_ = link
+	return c
+}
+
+const e2eHeader = `From Coq Require Import NArith List. Import ListNotations.
+From Verif Require Import Model.HaSync Model.HaSyncSpec Model.HaSyncCheck.
+Local Open Scope N_scope.
+Definition cases : list e2e_case := [
+`
+const e2eFooter = `
+].
+Definition R := Eval vm_compute in run_e2e_cases cases.
+Print R.
+`
+
 const header = `From Coq Require Import NArith List. Import ListNotations.
 From Verif Require Import Model.HaSync Model.HaSyncSpec Model.HaSyncCheck.
 Local Open Scope N_scope.
@@ -537,11 +761,15 @@ func main() {
 		if err := vh.LoadReplay(cfg.Replay, &c); err != nil {
 			panic(err)
 		}
+		if c.E2E {
+			vh.Emit(cfg, "e2e", e2eHeader, e2eFooter, []vh.Case{runE2E(c)}, nil)
+			return
+		}
 		cs, _ := run(c)
 		vh.Emit(cfg, "cases", header, footer, []vh.Case{cs}, nil)
 		return
 	}
-	var corpus []vh.Case
+	var corpus, e2e []vh.Case
 	for _, f := range vh.CorpusFiles(cfg) {
 		if strings.HasSuffix(f, "-heavy.json") && !cfg.Thorough() {
 			continue // thousands of operations: thorough tier only
@@ -550,13 +778,17 @@ func main() {
 		if err := vh.LoadReplay(f, &c); err != nil {
 			panic(err)
 		}
+		if c.E2E {
+			e2e = append(e2e, runE2E(c, "corpus"))
+			continue
+		}
 		cs, _ := run(c, "corpus")
 		corpus = append(corpus, cs)
 	}
 	if len(corpus) > 0 {
 		vh.Emit(cfg, "corpus", header, footer, corpus, nil)
 	}
-	depth, nrand, maxLen := 2, 250, 24
+	depth, nrand, maxLen := 2, 120, 16
 	if cfg.Thorough() {
 		depth, nrand, maxLen = 4, 2000, 40
 	}
@@ -575,5 +807,13 @@ func main() {
 		cs, _ := run(genRandom(r.Fork(), maxLen, true), "guarded")
 		guarded = append(guarded, cs)
 	}
+	ne2e := 30
+	if cfg.Thorough() {
+		ne2e = 300
+	}
+	for i := 0; i < ne2e; i++ {
+		e2e = append(e2e, runE2E(genE2E(r.Fork()), "e2e-random"))
+	}
+	vh.Emit(cfg, "e2e", e2eHeader, e2eFooter, e2e, map[string]interface{}{"note": "end-to-end: real standbyLoop/connectToStream/broadcastLoop over loopback HTTP (FullSyncInterval at its default), link cut and restored by the driver, changes during the outage, stores compared at bounded-poll quiescence"})
 	vh.Emit(cfg, "guarded", header, footer, guarded, map[string]interface{}{"note": "no broadcast between full sync and attach, no overflow: inside the guard of the _partial theorems"})
 }
